@@ -77,6 +77,10 @@ func H_C11_swapInRequest() {
 		zzverif.Assert(m.Amount*1000 >= env.policy.minMsat, "C11.swapin_needs_minimum_amount")
 		zzverif.Assert(env.policy.allowed && !env.policy.suspicious, "C11.swapin_needs_allowed_unsuspicious_peer")
 		zzverif.Assert(w.lastSpendable >= m.Amount*1000 && w.spendableAsked, "C11.swapin_amount_fits_channel")
+		// the premium this node asks for is within what the requester said it accepts
+		if sm, err := svc.GetActiveSwap(m.SwapId.String()); err == nil {
+			zzverif.Assert(sm.Data.GetPremium() <= m.PremiumLimit, "C11.swapin_agreed_premium_within_limit")
+		}
 	}
 }
 
@@ -102,6 +106,10 @@ func H_C11_swapOutRequest() {
 		zzverif.Assert(m.Amount*1000 >= env.policy.minMsat, "C11.swapout_needs_minimum_amount")
 		zzverif.Assert(env.policy.allowed && !env.policy.suspicious, "C11.swapout_needs_allowed_unsuspicious_peer")
 		zzverif.Assert(w.lastReceivable >= m.Amount*1000 && w.receivableAsked, "C11.swapout_amount_fits_channel")
+		// the premium this node charges is within what the requester said it accepts
+		if sm, err := svc.GetActiveSwap(m.SwapId.String()); err == nil {
+			zzverif.Assert(sm.Data.GetPremium() <= m.PremiumLimit, "C11.swapout_agreed_premium_within_limit")
+		}
 		// balance >= amount + fee as mathematical integers (bound as in C12: own fee estimate < 2^51 sat)
 		zzverif.Assume(w.lastFlatFee < 1<<51)
 		zzverif.Assert(w.balanceAsked && w.lastBalance >= m.Amount && w.lastBalance-m.Amount >= w.lastFlatFee, "C11.swapout_wallet_covers_amount_plus_fee")
